@@ -1,26 +1,1758 @@
-//! C16: not implemented yet.
+//! C16: lexer and parser never crash and report in-bounds spans.
+//!
+//! Monitor: the real `sway_parse::lex_commented` / `sway_parse::parse_file` are run on mutants of
+//! every `.sw` file of the repository and on token soups. Each shard is a supervisor that runs a
+//! disposable worker process (`swverif c16-worker ...`); inside the worker a 256 MiB-stack thread
+//! calls the parser under `catch_unwind`. Observed:
+//!   * a panic inside lex/parse_file (or inside sway-error while turning an emitted error into a
+//!     `Diagnostic`)                                              -> violation (call-site signature)
+//!   * the worker process dying on a signal (stack overflow, abort) on an input that kills a
+//!     fresh process again                                        -> violation
+//!   * every span of every emitted error / warning / info (main span, nested lex positions,
+//!     nested parse-error spans, `to_diagnostic` labels), every token span of the lexed stream and
+//!     every item / attribute span of the returned module: start <= end <= len, both offsets on
+//!     UTF-8 character boundaries of the input                    -> violation otherwise
+//!   * `Err(ErrorEmitted)` with no error in the handler (neither a tree nor a diagnostic)
+//! A worker that stops making progress is killed and recorded as inconclusive (never a verdict).
+//!
+//! Only the calls into sway-parse / sway-error / sway-ast are wrapped in `catch`; the mutation
+//! code runs outside of it, so a bug of the harness can never be reported as a parser panic (it
+//! would take the worker down with exit code 3 -> harness fault).
 use crate::common::*;
 use crate::{Plan, Prop};
+use rand::rngs::StdRng;
+use rand::Rng;
+use serde_json::{json, Value};
+use std::collections::HashMap;
+use std::panic::AssertUnwindSafe;
+use std::path::{Path, PathBuf};
+use std::time::{Duration, Instant};
+use sway_ast::token::{CommentedTokenStream, CommentedTokenTree, CommentedTree};
+use sway_ast::ItemKind;
+use sway_error::diagnostic::ToDiagnostic;
+use sway_error::error::CompileError;
+use sway_error::handler::Handler;
+use sway_error::lex_error::LexErrorKind;
+use sway_error::parser_error::ParseErrorKind;
+use sway_features::ExperimentalFeatures;
+use sway_types::span::Source;
+use sway_types::{SourceEngine, SourceId, Span, Spanned};
 
 pub static META: PropertyMeta = PropertyMeta {
     id: "C16",
     level: "exploration",
-    rule: "not implemented",
-    assumptions: &[],
-    floor_evaluations: 1,
-    floor_nontrivial: 2,
-    required_counters: &[],
+    rule: "inputs = 1-4 stacked mutations (byte/char/token/line insert-delete-swap-duplicate, cross-file token splicing, delimiter unbalancing, unicode injection, comment/whitespace perturbation, literal mangling, truncation) of .sw files sampled uniformly from all .sw files under /repo (excluding target, .git), plus token soups over the lexer alphabet; naive delimiter depth capped at 64. Non-trivial = the mutant's token stream (real lexer, comments stripped) differs from its seed file's; when either does not lex: the bytes differ; soups: at least 2 tokens. distinct = hash of the input text",
+    assumptions: &[
+        "stack exhaustion by deeper than 64-level delimiter nesting is a resource limit and is not explored",
+        "inputs with more than 14 simultaneously open '[' are not generated: type parsing is exponential in '[' nesting (slow, but it terminates)",
+        "a worker that makes no progress for 60 s is killed and counted inconclusive (termination is only observed, not bounded)",
+    ],
+    floor_evaluations: 2000,
+    floor_nontrivial: 1000,
+    required_counters: &["lexed_ok", "lex_rejected", "parsed_ok", "parse_rejected", "diagnostic_spans_checked", "token_spans_checked", "item_spans_checked", "inputs_non_ascii", "kind_mutant", "kind_soup", "seed_files_used"],
 };
 
 pub static PROP: Prop = Prop {
     meta: &META,
-    plan: |_t| Plan { nshards: 1, budget_s: 1.0, mem_gib: 0 },
-    shard: |_ctx| {
-        let mut r = ShardResult::default();
-        r.harness_fault = Some("not implemented".into());
-        r
-    },
-    replay: crate::no_replay,
+    plan: |t| Plan { nshards: 16, budget_s: t.pick(20.0, 600.0), mem_gib: 4 },
+    shard,
+    replay,
     extra: crate::no_extra,
-    subcommand: crate::no_subcommand,
+    subcommand,
 };
+
+const STACK: usize = 256 << 20;
+const MAX_DEPTH: usize = 64;
+/// `[` nesting is capped much lower: `Ty::parse` tries `[T; n]` and then re-parses the same tokens
+/// as `[T]`, so a type (or anything parsed as a type) nested k levels deep in `[` costs 2^k
+/// (measured: k=18 0.16 s, k=22 1.9 s, k=30 minutes). That is slowness, not a crash; such inputs
+/// would only burn the budget as watchdog expiries.
+const MAX_BRACKET_DEPTH: usize = 14;
+const MAX_LEN: usize = 400_000;
+const HANG_SECS: u64 = 60;
+
+// ------------------------------------------------------------------------------------------
+// Corpus
+
+fn corpus_files() -> Vec<PathBuf> {
+    let mut v = vec![];
+    let root = Path::new(REPO);
+    let it = walkdir::WalkDir::new(root).follow_links(false).into_iter().filter_entry(|e| {
+        if e.depth() == 1 {
+            let n = e.file_name().to_string_lossy();
+            if n == "target" || n == ".git" {
+                return false;
+            }
+        }
+        true
+    });
+    for e in it.flatten() {
+        if e.file_type().is_file() && e.path().extension().map(|x| x == "sw").unwrap_or(false) {
+            v.push(e.path().to_path_buf());
+        }
+    }
+    v.sort();
+    v
+}
+
+struct Corpus {
+    files: Vec<PathBuf>,
+    text: HashMap<usize, Option<String>>,
+    fp: HashMap<usize, Option<u64>>,
+}
+
+impl Corpus {
+    fn load() -> Corpus {
+        Corpus { files: corpus_files(), text: HashMap::new(), fp: HashMap::new() }
+    }
+    fn text(&mut self, i: usize) -> Option<String> {
+        let files = &self.files;
+        self.text.entry(i).or_insert_with(|| std::fs::read(&files[i]).ok().and_then(|b| String::from_utf8(b).ok())).clone()
+    }
+}
+
+// ------------------------------------------------------------------------------------------
+// The harness's own rough tokenizer (only used to find mutation points; independent of sway-parse)
+
+#[derive(Clone, Copy, PartialEq, Eq, Debug)]
+enum K {
+    Ws,
+    Comment,
+    Word,
+    Str,
+    Open,
+    Close,
+    Punct,
+}
+
+#[derive(Clone, Copy, Debug)]
+struct Tok {
+    s: usize,
+    e: usize,
+    k: K,
+}
+
+fn rough_tokens(text: &str) -> Vec<Tok> {
+    let b = text.as_bytes();
+    let n = b.len();
+    let mut out = vec![];
+    let mut i = 0;
+    while i < n {
+        let c = b[i];
+        let s = i;
+        let k;
+        if c == b' ' || c == b'\t' || c == b'\n' || c == b'\r' {
+            while i < n && (b[i] == b' ' || b[i] == b'\t' || b[i] == b'\n' || b[i] == b'\r') {
+                i += 1;
+            }
+            k = K::Ws;
+        } else if c == b'/' && i + 1 < n && b[i + 1] == b'/' {
+            while i < n && b[i] != b'\n' {
+                i += 1;
+            }
+            k = K::Comment;
+        } else if c == b'/' && i + 1 < n && b[i + 1] == b'*' {
+            let mut depth = 0usize;
+            while i < n {
+                if b[i] == b'/' && i + 1 < n && b[i + 1] == b'*' {
+                    depth += 1;
+                    i += 2;
+                } else if b[i] == b'*' && i + 1 < n && b[i + 1] == b'/' {
+                    depth -= 1;
+                    i += 2;
+                    if depth == 0 {
+                        break;
+                    }
+                } else {
+                    i += 1;
+                }
+            }
+            k = K::Comment;
+        } else if c == b'"' {
+            i += 1;
+            while i < n && b[i] != b'"' {
+                if b[i] == b'\\' && i + 1 < n {
+                    i += 1;
+                }
+                i += 1;
+            }
+            if i < n {
+                i += 1;
+            }
+            k = K::Str;
+        } else if c.is_ascii_alphanumeric() || c == b'_' || c >= 0x80 {
+            while i < n && (b[i].is_ascii_alphanumeric() || b[i] == b'_' || b[i] >= 0x80) {
+                i += 1;
+            }
+            k = K::Word;
+        } else if c == b'(' || c == b'[' || c == b'{' {
+            i += 1;
+            k = K::Open;
+        } else if c == b')' || c == b']' || c == b'}' {
+            i += 1;
+            k = K::Close;
+        } else {
+            i += 1;
+            k = K::Punct;
+        }
+        // never split inside a UTF-8 sequence
+        while i < n && !text.is_char_boundary(i) {
+            i += 1;
+        }
+        out.push(Tok { s, e: i.min(n), k });
+    }
+    out
+}
+
+/// Conservative nesting depth: counts every delimiter character, also those in strings/comments.
+fn naive_depth(text: &str) -> usize {
+    let mut d = 0usize;
+    let mut m = 0usize;
+    for &c in text.as_bytes() {
+        match c {
+            b'(' | b'[' | b'{' => {
+                d += 1;
+                m = m.max(d);
+            }
+            b')' | b']' | b'}' => d = d.saturating_sub(1),
+            _ => {}
+        }
+    }
+    m
+}
+
+/// Conservative count of simultaneously open `[` (any closing delimiter closes one).
+fn naive_bracket_depth(text: &str) -> usize {
+    let mut d = 0usize;
+    let mut m = 0usize;
+    for &c in text.as_bytes() {
+        match c {
+            b'[' => {
+                d += 1;
+                m = m.max(d);
+            }
+            b']' => d = d.saturating_sub(1),
+            _ => {}
+        }
+    }
+    m
+}
+
+fn over_cap(text: &str) -> Option<&'static str> {
+    if naive_depth(text) > MAX_DEPTH {
+        Some("depth_cap")
+    } else if naive_bracket_depth(text) > MAX_BRACKET_DEPTH {
+        Some("bracket_depth_cap")
+    } else if text.len() > MAX_LEN {
+        Some("size_cap")
+    } else {
+        None
+    }
+}
+
+// ------------------------------------------------------------------------------------------
+// Alphabet
+
+const KEYWORDS: &[&str] = &[
+    "script", "contract", "predicate", "library", "mod", "pub", "use", "as", "struct", "enum", "self", "Self", "fn", "trait", "impl", "for", "abi", "const", "storage", "str", "asm", "return", "if", "else", "match", "mut", "let", "while", "where", "ref", "true", "false", "break", "continue", "configurable", "type", "panic", "in", "class", "dep", "deref", "dyn",
+];
+const PUNCT: &[&str] = &[
+    ";", ":", "::", "/", ",", "*", "+", "-", "<", ">", "=", ".", "..", "...", "!", "%", "&", "^", "|", "_", "#", "#!", "->", "=>", "==", "!=", "<=", ">=", "&&", "||", "+=", "-=", "*=", "/=", "<<", ">>", "<<=", ">>=", "**", "~", "?", "@", "$", "\\", "`", "#[", "#![", "::<", "&mut", "..=",
+];
+const OPEN: &[&str] = &["(", "[", "{"];
+const CLOSE: &[&str] = &[")", "]", "}"];
+const LITERALS: &[&str] = &[
+    "0", "1", "42", "0x", "0b", "0o", "0xff", "0xFF", "0b1010", "0o17", "1u8", "255u8", "256u8", "1u16", "1u32", "1u64", "1u256", "1i8", "1i64", "1u128", "1u7", "1usize", "0x1u8", "0b1u64", "1_000", "1__0", "1_", "_1", "0x_", "0x_1", "0b2", "0o9", "0xg", "1e5", "1.0", "1.", "0.", ".0", "1.a", "1.0.0", "0.0.0", "1..2", "00", "007", "0X1", "0B1",
+    "0x0000000000000000000000000000000000000000000000000000000000000001",
+    "0xfffffffffffffffffffffffffffffffffffffffffffffffffffffffffffffffff",
+    "0xfffffffffffffffffffffffffffffffffffffffffffffffffffffffffffffff",
+    "0xFFFFFFFFFFFFFFFFFFFFFFFFFFFFFFFFFFFFFFFFFFFFFFFFFFFFFFFFFFFFFFFFu256",
+    "0b1111111111111111111111111111111111111111111111111111111111111111",
+    "0b11111111111111111111111111111111111111111111111111111111111111111",
+    "18446744073709551615", "18446744073709551616", "340282366920938463463374607431768211456",
+    "115792089237316195423570985008687907853269984665640564039457584007913129639936",
+    "99999999999999999999999999999999999999999999999999999999999999999999999999999999999999999999999999",
+    "\"\"", "\"abc\"", "\"a\\nb\"", "\"\\t\\r\\0\\\\\\'\\\"\"", "\"\\x41\"", "\"\\x4\"", "\"\\xzz\"", "\"\\xff\"", "\"\\x80\"", "\"\\u{1F600}\"", "\"\\u{110000}\"", "\"\\u{D800}\"", "\"\\u{}\"", "\"\\u{\"", "\"\\u{1F600\"", "\"\\u{1234567}\"", "\"\\u1234\"", "\"\\u\"", "\"\\q\"", "\"unclosed", "\"\\\"", "\"\\\n  x\"", "\"\\", "\"\n\"", "\"é😀\u{0301}\"", "\"\u{202E}\"", "\"\\u{202E}\"",
+    "'a'", "'\\n'", "'ab'", "''", "'", "'a", "'\\'", "'\\''", "'\\u{1F600}'", "'\\u{110000}'", "'\\x41'", "'\\x4'", "'é'", "'😀'", "'\u{202E}'", "'static", "'a 'b", "'\\", "'\n'",
+    "__", "r#fn", "r#", "r#\"x\"#", "b\"x\"", "b'x'",
+];
+const COMMENTS: &[&str] = &[
+    "// c\n", "/// doc\n", "//! inner\n", "/* c */", "/* /* nested */ */", "/* unclosed", "/* /* half */", "*/", "/**/", "/***/", "/** doc */", "/*! inner */", "//", "///", "//!", "/*/", "/*", "/* \u{1F600} */", "// \u{0301}\n", "//\r\n", "/// é\n", "//! 😀", "////\n", "/* \n */",
+];
+const UNICODE: &[char] = &[
+    'é', 'ß', 'ñ', 'Ω', '\u{7eb}', '\u{7ff}', '\u{800}', '中', '€', '\u{2028}', '\u{2029}', '\u{FEFF}', '\u{200B}', '\u{200D}', '😀', '𝔘', '\u{10000}', '\u{10FFFF}', '\u{0301}', '\u{20DD}', '\u{202E}', '\u{2066}', '\u{00A0}', '\u{3000}', '\u{85}', '\u{80}', '\u{FFFD}', '\u{FFFF}', 'ǅ', 'ﬁ', '٣', '²',
+];
+const IDENTS: &[&str] = &[
+    "x", "y", "foo", "main", "Foo", "Bar", "T", "u64", "u8", "u256", "b256", "bool", "Vec", "Option", "Some", "None", "std", "core", "__intrinsic", "__add", "_x", "é", "naïve", "x\u{0304}", "中文", "storage", "ecal", "add", "lw", "noop", "r1", "zero", "i0", "i16", "inline", "test", "cfg", "doc", "read", "write", "payable", "abi_name", "a1b2", "A_B",
+];
+const SKELETONS: &[&str] = &[
+    "script;", "library;", "contract;", "predicate;", "fn f() {", "fn f(x: u64) -> u64 {", "pub fn g<T>(a: T) where T: Eq {", "struct S {", "struct S<T> { x: T,", "enum E {", "E: (),", "impl T for S {", "impl S {", "impl<T> S<T> {", "abi A {", "storage {", "configurable {", "trait T {", "trait T: A + B {", "} {", "const C: u64 =", "use a::{", "use std::*;", "mod m;", "type A =", "asm(r1: x, r2) {", "add r1 r2 r3;", "r1: u64", "match x {", "A::B(y) =>", "_ =>", "if x {", "} else if y {", "} else {", "while x {", "for i in v.iter() {", "let x =", "let mut x: u64 =", "let (a, b) =", "let S { x, .. } =", "#[attr(", "#[storage(read, write)]", "#[cfg(experimental_new_encoding = true)]", "#![allow(dead_code)]", "where T:", "<T>", "::<u64>", "x.0.1", "x[0]", "[0; 3]", "[u8; 3]", "(a, b)", "&mut x", "*x", "!x", "-x", "x as u64", "abi(A, addr)", "storage.x.read()", "storage::ns.x", "in 0x01", "__ptr[u8]", "__slice[u8]", "str[3]", "return;", "break;", "continue;", "panic \"x\";", "x += 1;", "S { x: 1, y }", "|x|", "a..b", "x?", "fn(u64) -> u64", "self.x", "Self::A", "~S::new()", "..",
+];
+const WS: &[&str] = &[" ", "", "\n", "\t", "\r\n", "  ", "\n\n", "\r", "\u{A0}", "\u{2028}", "\u{FEFF}", "\u{3000}", "\u{85}", "\u{b}", "\u{c}"];
+
+fn pick<'a>(rng: &mut StdRng, xs: &[&'a str]) -> &'a str {
+    xs[rng.gen_range(0..xs.len())]
+}
+
+fn alphabet_token(rng: &mut StdRng) -> String {
+    match rng.gen_range(0..100) {
+        0..=17 => pick(rng, KEYWORDS).to_string(),
+        18..=37 => pick(rng, PUNCT).to_string(),
+        38..=45 => pick(rng, OPEN).to_string(),
+        46..=53 => pick(rng, CLOSE).to_string(),
+        54..=71 => pick(rng, LITERALS).to_string(),
+        72..=77 => pick(rng, COMMENTS).to_string(),
+        78..=81 => UNICODE[rng.gen_range(0..UNICODE.len())].to_string(),
+        82..=93 => pick(rng, IDENTS).to_string(),
+        _ => pick(rng, SKELETONS).to_string(),
+    }
+}
+
+fn separator(rng: &mut StdRng) -> &'static str {
+    match rng.gen_range(0..100) {
+        0..=59 => " ",
+        60..=74 => "",
+        75..=86 => "\n",
+        _ => WS[rng.gen_range(0..WS.len())],
+    }
+}
+
+fn soup(rng: &mut StdRng) -> String {
+    let mut s = String::new();
+    let style = rng.gen_range(0..4);
+    if style != 0 {
+        s.push_str(pick(rng, &["script;", "library;", "contract;", "predicate;", "script ;", "library"]));
+        s.push('\n');
+    }
+    let n = match rng.gen_range(0..10) {
+        0..=2 => rng.gen_range(1..=8),
+        3..=7 => rng.gen_range(5..=60),
+        _ => rng.gen_range(40..=300),
+    };
+    let mut depth = 0usize;
+    for _ in 0..n {
+        let t = if style >= 2 && rng.gen_bool(0.45) { pick(rng, SKELETONS).to_string() } else { alphabet_token(rng) };
+        // keep the (naive) nesting depth below the cap while generating
+        let opens = t.bytes().filter(|c| matches!(c, b'(' | b'[' | b'{')).count();
+        let closes = t.bytes().filter(|c| matches!(c, b')' | b']' | b'}')).count();
+        let bopens = t.bytes().filter(|c| *c == b'[').count();
+        if bopens > 0 && naive_bracket_depth(&s) + bopens > MAX_BRACKET_DEPTH / 2 && rng.gen_bool(0.9) {
+            s.push_str("]");
+            depth = depth.saturating_sub(1);
+            continue;
+        }
+        if depth + opens >= MAX_DEPTH {
+            s.push_str(pick(rng, CLOSE));
+            depth = depth.saturating_sub(1);
+            continue;
+        }
+        depth = (depth + opens).saturating_sub(closes);
+        s.push_str(&t);
+        s.push_str(separator(rng));
+        // sometimes close what is open so that recovery and later items are reached
+        if style == 3 && depth > 0 && rng.gen_bool(0.15) {
+            s.push_str(pick(rng, CLOSE));
+            depth -= 1;
+        }
+    }
+    s
+}
+
+// ------------------------------------------------------------------------------------------
+// Mutation operators (all produce valid UTF-8: byte-level damage goes through from_utf8_lossy)
+
+fn char_boundary_at_or_before(s: &str, mut i: usize) -> usize {
+    i = i.min(s.len());
+    while !s.is_char_boundary(i) {
+        i -= 1;
+    }
+    i
+}
+
+fn rand_boundary(rng: &mut StdRng, s: &str) -> usize {
+    if s.is_empty() {
+        return 0;
+    }
+    let i = rng.gen_range(0..=s.len());
+    char_boundary_at_or_before(s, i)
+}
+
+fn lossy(b: Vec<u8>) -> String {
+    match String::from_utf8(b) {
+        Ok(s) => s,
+        Err(e) => String::from_utf8_lossy(e.as_bytes()).into_owned(),
+    }
+}
+
+fn rand_char(rng: &mut StdRng) -> char {
+    match rng.gen_range(0..10) {
+        0..=5 => (rng.gen_range(0x20u8..0x7f)) as char,
+        6 => *choose(rng, &['\n', '\t', '\r', '\0', '\u{7f}', '\u{1}', '\u{1b}']),
+        7 => *choose(rng, &['"', '\'', '\\', '/', '*', '#', '{', '}', '(', ')', '[', ']', ';', ':', '<', '>', '_', '.', '0', 'x', 'u', 'e']),
+        _ => UNICODE[rng.gen_range(0..UNICODE.len())],
+    }
+}
+
+const OPS: &[&str] = &[
+    "byte_insert", "byte_delete", "byte_replace", "char_insert", "char_delete", "char_swap", "range_delete", "range_dup", "truncate", "tok_delete", "tok_dup", "tok_swap_adjacent", "tok_swap_random", "tok_replace", "tok_insert", "tok_range_delete", "tok_shuffle", "splice_file", "delim_delete", "delim_insert", "delim_change", "delim_burst", "unicode_inject", "ws_perturb", "comment_insert", "comment_damage", "literal_mangle", "string_escape", "line_delete", "line_dup", "line_swap", "keyword_swap", "skeleton_insert",
+];
+
+/// Applies one mutation; `other` is a second corpus file for splicing. Returns the operator name.
+fn mutate_once(rng: &mut StdRng, s: &mut String, other: &str) -> &'static str {
+    let op = OPS[rng.gen_range(0..OPS.len())];
+    let toks = rough_tokens(s);
+    let solid: Vec<usize> = toks.iter().enumerate().filter(|(_, t)| t.k != K::Ws).map(|(i, _)| i).collect();
+    let tok_boundary = |rng: &mut StdRng| -> usize {
+        if toks.is_empty() {
+            0
+        } else {
+            let t = toks[rng.gen_range(0..toks.len())];
+            if rng.gen_bool(0.5) {
+                t.s
+            } else {
+                t.e
+            }
+        }
+    };
+    match op {
+        "byte_insert" => {
+            let mut b = std::mem::take(s).into_bytes();
+            let i = rng.gen_range(0..=b.len());
+            let n = rng.gen_range(1..=3);
+            for _ in 0..n {
+                b.insert(i, rng.gen());
+            }
+            *s = lossy(b);
+        }
+        "byte_delete" => {
+            let mut b = std::mem::take(s).into_bytes();
+            if !b.is_empty() {
+                let i = rng.gen_range(0..b.len());
+                let n = rng.gen_range(1..=4).min(b.len() - i);
+                b.drain(i..i + n);
+            }
+            *s = lossy(b);
+        }
+        "byte_replace" => {
+            let mut b = std::mem::take(s).into_bytes();
+            if !b.is_empty() {
+                let i = rng.gen_range(0..b.len());
+                if rng.gen_bool(0.5) {
+                    b[i] ^= 1 << rng.gen_range(0..8);
+                } else {
+                    b[i] = rng.gen();
+                }
+            }
+            *s = lossy(b);
+        }
+        "char_insert" => {
+            let i = rand_boundary(rng, s);
+            s.insert(i, rand_char(rng));
+        }
+        "char_delete" => {
+            let i = rand_boundary(rng, s);
+            if i < s.len() {
+                s.remove(i);
+            }
+        }
+        "char_swap" => {
+            let i = rand_boundary(rng, s);
+            let mut it = s[i..].chars();
+            if let (Some(a), Some(b)) = (it.next(), it.next()) {
+                let len = a.len_utf8() + b.len_utf8();
+                let mut r = String::new();
+                r.push(b);
+                r.push(a);
+                s.replace_range(i..i + len, &r);
+            }
+        }
+        "range_delete" => {
+            let i = rand_boundary(rng, s);
+            let max = if rng.gen_bool(0.8) { 40 } else { 2000 };
+            let j = char_boundary_at_or_before(s, i + rng.gen_range(0..=max));
+            s.replace_range(i..j.max(i), "");
+        }
+        "range_dup" => {
+            let i = rand_boundary(rng, s);
+            let j = char_boundary_at_or_before(s, i + rng.gen_range(0..=200)).max(i);
+            let piece = s[i..j].to_string();
+            let at = rand_boundary(rng, s);
+            s.insert_str(at, &piece);
+        }
+        "truncate" => {
+            if rng.gen_bool(0.7) {
+                let i = rand_boundary(rng, s);
+                s.truncate(i);
+            } else {
+                let mut b = std::mem::take(s).into_bytes();
+                let i = rng.gen_range(0..=b.len());
+                b.truncate(i);
+                *s = lossy(b);
+            }
+        }
+        "tok_delete" => {
+            if !solid.is_empty() {
+                let t = toks[solid[rng.gen_range(0..solid.len())]];
+                s.replace_range(t.s..t.e, "");
+            }
+        }
+        "tok_dup" => {
+            if !solid.is_empty() {
+                let t = toks[solid[rng.gen_range(0..solid.len())]];
+                let piece = s[t.s..t.e].to_string();
+                let n = if rng.gen_bool(0.9) { 1 } else { rng.gen_range(2..=20) };
+                let sep = separator(rng);
+                let mut ins = String::new();
+                for _ in 0..n {
+                    ins.push_str(sep);
+                    ins.push_str(&piece);
+                }
+                if naive_depth(&ins) < 20 {
+                    s.insert_str(t.e, &ins);
+                }
+            }
+        }
+        "tok_swap_adjacent" | "tok_swap_random" => {
+            if solid.len() >= 2 {
+                let a = rng.gen_range(0..solid.len() - 1);
+                let b = if op == "tok_swap_adjacent" { a + 1 } else { rng.gen_range(a + 1..solid.len()) };
+                let (ta, tb) = (toks[solid[a]], toks[solid[b]]);
+                let (sa, sb) = (s[ta.s..ta.e].to_string(), s[tb.s..tb.e].to_string());
+                s.replace_range(tb.s..tb.e, &sa);
+                s.replace_range(ta.s..ta.e, &sb);
+            }
+        }
+        "tok_replace" => {
+            if !solid.is_empty() {
+                let t = toks[solid[rng.gen_range(0..solid.len())]];
+                let r = alphabet_token(rng);
+                s.replace_range(t.s..t.e, &r);
+            }
+        }
+        "tok_insert" => {
+            let at = tok_boundary(rng);
+            let n = rng.gen_range(1..=3);
+            let mut ins = String::new();
+            for _ in 0..n {
+                ins.push_str(separator(rng));
+                ins.push_str(&alphabet_token(rng));
+            }
+            ins.push_str(separator(rng));
+            s.insert_str(at, &ins);
+        }
+        "tok_range_delete" => {
+            if !toks.is_empty() {
+                let a = rng.gen_range(0..toks.len());
+                let b = (a + rng.gen_range(1..=12)).min(toks.len());
+                s.replace_range(toks[a].s..toks[b - 1].e, "");
+            }
+        }
+        "tok_shuffle" => {
+            if solid.len() >= 3 {
+                let a = rng.gen_range(0..solid.len() - 2);
+                let b = (a + rng.gen_range(3..=8)).min(solid.len());
+                let mut pieces: Vec<String> = solid[a..b].iter().map(|&i| s[toks[i].s..toks[i].e].to_string()).collect();
+                for i in (1..pieces.len()).rev() {
+                    let j = rng.gen_range(0..=i);
+                    pieces.swap(i, j);
+                }
+                // replace back to front so earlier offsets stay valid
+                for (k, &i) in solid[a..b].iter().enumerate().rev() {
+                    s.replace_range(toks[i].s..toks[i].e, &pieces[k]);
+                }
+            }
+        }
+        "splice_file" => {
+            let ot = rough_tokens(other);
+            if !ot.is_empty() {
+                let a = rng.gen_range(0..ot.len());
+                let b = (a + rng.gen_range(1..=40)).min(ot.len());
+                let piece = &other[ot[a].s..ot[b - 1].e];
+                if rng.gen_bool(0.5) || toks.is_empty() {
+                    let at = tok_boundary(rng);
+                    s.insert_str(at, piece);
+                } else {
+                    let x = rng.gen_range(0..toks.len());
+                    let y = (x + rng.gen_range(1..=20)).min(toks.len());
+                    s.replace_range(toks[x].s..toks[y - 1].e, piece);
+                }
+            }
+        }
+        "delim_delete" | "delim_change" => {
+            let ds: Vec<usize> = toks.iter().enumerate().filter(|(_, t)| t.k == K::Open || t.k == K::Close).map(|(i, _)| i).collect();
+            if !ds.is_empty() {
+                let t = toks[ds[rng.gen_range(0..ds.len())]];
+                let r = if op == "delim_delete" {
+                    ""
+                } else if rng.gen_bool(0.5) {
+                    pick(rng, OPEN)
+                } else {
+                    pick(rng, CLOSE)
+                };
+                s.replace_range(t.s..t.e, r);
+            }
+        }
+        "delim_insert" => {
+            let at = tok_boundary(rng);
+            let r = if rng.gen_bool(0.5) { pick(rng, OPEN) } else { pick(rng, CLOSE) };
+            s.insert_str(at, r);
+        }
+        "delim_burst" => {
+            let at = tok_boundary(rng);
+            let mut n = rng.gen_range(2..=40);
+            let mut ins = String::new();
+            let same = rng.gen_bool(0.5);
+            let d = if rng.gen_bool(0.6) { pick(rng, OPEN) } else { pick(rng, CLOSE) };
+            if d == "[" || !same {
+                n = n.min(10);
+            }
+            for _ in 0..n {
+                ins.push_str(if same {
+                    d
+                } else if rng.gen_bool(0.7) {
+                    pick(rng, OPEN)
+                } else {
+                    pick(rng, CLOSE)
+                });
+            }
+            s.insert_str(at, &ins);
+        }
+        "unicode_inject" => {
+            let c = UNICODE[rng.gen_range(0..UNICODE.len())];
+            // anywhere, or inside a word / string / comment
+            let want = match rng.gen_range(0..4) {
+                0 => None,
+                1 => Some(K::Word),
+                2 => Some(K::Str),
+                _ => Some(K::Comment),
+            };
+            let cands: Vec<&Tok> = toks.iter().filter(|t| Some(t.k) == want).collect();
+            let at = if cands.is_empty() {
+                rand_boundary(rng, s)
+            } else {
+                let t = cands[rng.gen_range(0..cands.len())];
+                char_boundary_at_or_before(s, rng.gen_range(t.s..=t.e))
+            };
+            let n = if rng.gen_bool(0.85) { 1 } else { rng.gen_range(2..=5) };
+            for _ in 0..n {
+                s.insert(at, c);
+            }
+        }
+        "ws_perturb" => {
+            let wss: Vec<&Tok> = toks.iter().filter(|t| t.k == K::Ws).collect();
+            if !wss.is_empty() && rng.gen_bool(0.7) {
+                let t = wss[rng.gen_range(0..wss.len())];
+                let r = WS[rng.gen_range(0..WS.len())];
+                s.replace_range(t.s..t.e, r);
+            } else {
+                let at = tok_boundary(rng);
+                s.insert_str(at, WS[rng.gen_range(0..WS.len())]);
+            }
+        }
+        "comment_insert" => {
+            let at = if rng.gen_bool(0.8) { tok_boundary(rng) } else { rand_boundary(rng, s) };
+            s.insert_str(at, pick(rng, COMMENTS));
+        }
+        "comment_damage" => {
+            let cs: Vec<&Tok> = toks.iter().filter(|t| t.k == K::Comment).collect();
+            if !cs.is_empty() {
+                let t = *cs[rng.gen_range(0..cs.len())];
+                match rng.gen_range(0..4) {
+                    0 => {
+                        // drop the closing two bytes / the last char
+                        let cut = char_boundary_at_or_before(s, t.e.saturating_sub(2)).max(t.s);
+                        s.replace_range(cut..t.e, "");
+                    }
+                    1 => {
+                        // drop the newline that ends a line comment
+                        if t.e < s.len() && s.as_bytes()[t.e] == b'\n' {
+                            s.replace_range(t.e..t.e + 1, "");
+                        }
+                    }
+                    2 => s.insert_str(t.s + 2.min(t.e - t.s), pick(rng, &["/", "!", "*", "/*", "*/", "\u{1F600}", "\r"])),
+                    _ => {
+                        let piece = s[t.s..t.e].to_string();
+                        s.insert_str(t.s, &piece);
+                    }
+                }
+            }
+        }
+        "literal_mangle" => {
+            let ls: Vec<&Tok> = toks.iter().filter(|t| t.k == K::Word && s.as_bytes()[t.s].is_ascii_digit()).collect();
+            if !ls.is_empty() {
+                let t = *ls[rng.gen_range(0..ls.len())];
+                match rng.gen_range(0..6) {
+                    0 => s.insert_str(t.e, pick(rng, &["u8", "u16", "u32", "u64", "u256", "i8", "u7", "_", "x", "e9", "usize", "é", "u", "u6\u{0301}4"])),
+                    1 => s.insert_str(t.s, pick(rng, &["0x", "0b", "0o", "0", "-", "0x0x", "_"])),
+                    2 => s.insert_str(rng.gen_range(t.s..=t.e), pick(rng, &[".", "_", "__", "..", "e", "x"])),
+                    3 => {
+                        let n = rng.gen_range(20..=100);
+                        let d: String = (0..n).map(|_| (b'0' + rng.gen_range(0..10u8)) as char).collect();
+                        s.insert_str(t.e, &d);
+                    }
+                    4 => s.replace_range(t.s..t.e, pick(rng, LITERALS)),
+                    _ => s.replace_range(t.s..t.e, ""),
+                }
+            } else {
+                let at = tok_boundary(rng);
+                s.insert_str(at, pick(rng, LITERALS));
+            }
+        }
+        "string_escape" => {
+            let ss: Vec<&Tok> = toks.iter().filter(|t| t.k == K::Str).collect();
+            let esc = pick(rng, &["\\n", "\\x41", "\\x4", "\\xzz", "\\xff", "\\u{1F600}", "\\u{110000}", "\\u{D800}", "\\u{", "\\u{}", "\\u", "\\q", "\\", "\\\"", "\"", "\n", "\\\n", "\u{202E}", "😀", "\\0", "\\u{00000041}", "\\u{4_1}"]);
+            if !ss.is_empty() {
+                let t = *ss[rng.gen_range(0..ss.len())];
+                let at = char_boundary_at_or_before(s, rng.gen_range(t.s + 1..=t.e.max(t.s + 1)));
+                s.insert_str(at, esc);
+            } else {
+                let at = tok_boundary(rng);
+                s.insert_str(at, &format!("\"{esc}\""));
+            }
+        }
+        "line_delete" | "line_dup" | "line_swap" => {
+            let mut lines: Vec<String> = s.split_inclusive('\n').map(|l| l.to_string()).collect();
+            if !lines.is_empty() {
+                let i = rng.gen_range(0..lines.len());
+                match op {
+                    "line_delete" => {
+                        lines.remove(i);
+                    }
+                    "line_dup" => {
+                        let l = lines[i].clone();
+                        lines.insert(i, l);
+                    }
+                    _ => {
+                        let j = rng.gen_range(0..lines.len());
+                        lines.swap(i, j);
+                    }
+                }
+                *s = lines.concat();
+            }
+        }
+        "keyword_swap" => {
+            let ks: Vec<&Tok> = toks.iter().filter(|t| t.k == K::Word && KEYWORDS.contains(&&s[t.s..t.e])).collect();
+            if !ks.is_empty() {
+                let t = *ks[rng.gen_range(0..ks.len())];
+                s.replace_range(t.s..t.e, pick(rng, KEYWORDS));
+            } else {
+                let at = tok_boundary(rng);
+                s.insert_str(at, &format!(" {} ", pick(rng, KEYWORDS)));
+            }
+        }
+        "skeleton_insert" => {
+            let at = tok_boundary(rng);
+            s.insert_str(at, &format!(" {} ", pick(rng, SKELETONS)));
+        }
+        _ => unreachable!("unknown operator"),
+    }
+    op
+}
+
+#[derive(Clone, Debug)]
+struct Case {
+    text: String,
+    kind: &'static str,
+    ops: Vec<&'static str>,
+    seed_file: Option<usize>,
+    /// dropped by the generator (depth cap / size cap); not evaluated
+    skipped: Option<&'static str>,
+}
+
+/// Pure function of (seed, shard, index) and the corpus.
+fn gen_case(seed: u64, shard: u64, index: u64, corpus: &mut Corpus) -> Case {
+    let mut rng = rng_for(seed, shard, index);
+    let soup_case = corpus.files.is_empty() || rng.gen_range(0..100) < 22;
+    if soup_case {
+        let text = soup(&mut rng);
+        let skipped = over_cap(&text);
+        return Case { text, kind: "soup", ops: vec!["soup"], seed_file: None, skipped };
+    }
+    let nfiles = corpus.files.len();
+    let fi = rng.gen_range(0..nfiles);
+    let oi = rng.gen_range(0..nfiles);
+    let Some(mut text) = corpus.text(fi) else {
+        return Case { text: String::new(), kind: "mutant", ops: vec![], seed_file: Some(fi), skipped: Some("seed_unreadable") };
+    };
+    let other = corpus.text(oi).unwrap_or_default();
+    // rarely the unmodified seed itself (every file must parse or be diagnosed without a crash)
+    let n = match rng.gen_range(0..100) {
+        0..=1 => 0,
+        2..=56 => 1,
+        57..=81 => 2,
+        82..=93 => 3,
+        _ => 4,
+    };
+    let mut ops = vec![];
+    for _ in 0..n {
+        ops.push(mutate_once(&mut rng, &mut text, &other));
+    }
+    if n == 0 {
+        ops.push("identity");
+    }
+    let skipped = over_cap(&text);
+    Case { text, kind: "mutant", ops, seed_file: Some(fi), skipped }
+}
+
+// ------------------------------------------------------------------------------------------
+// The oracle
+
+struct Checker {
+    source_engine: SourceEngine,
+    source_id: SourceId,
+}
+
+struct SpanIssue {
+    what: &'static str,
+    start: usize,
+    end: usize,
+}
+
+fn span_issue(text: &str, start: usize, end: usize) -> Option<SpanIssue> {
+    let what = if end > text.len() {
+        "end>len"
+    } else if start > end {
+        "start>end"
+    } else if !text.is_char_boundary(start) {
+        "start-not-on-char-boundary"
+    } else if !text.is_char_boundary(end) {
+        "end-not-on-char-boundary"
+    } else {
+        return None;
+    };
+    Some(SpanIssue { what, start, end })
+}
+
+/// digits stripped, first words only: a stable label for an error kind
+fn kind_label(msg: &str) -> String {
+    let mut out = String::new();
+    for c in msg.chars().take(60) {
+        if c.is_ascii_digit() {
+            continue;
+        }
+        if c == '\n' {
+            break;
+        }
+        out.push(c);
+    }
+    out.trim().to_string()
+}
+
+struct Eval<'a> {
+    text: &'a str,
+    res: &'a mut ShardResult,
+    replay: Value,
+    input_arc: Option<std::sync::Arc<str>>,
+    failed: bool,
+}
+
+impl Eval<'_> {
+    fn violation(&mut self, sig: String, desc: String) {
+        self.failed = true;
+        let r = self.replay.clone();
+        self.res.violation(sig, desc, r);
+    }
+    fn check_offsets(&mut self, origin: &str, counter: &str, start: usize, end: usize) {
+        self.res.count(counter);
+        if let Some(i) = span_issue(self.text, start, end) {
+            self.violation(
+                format!("bad-span:{origin}:{}", i.what),
+                format!("span {}..{} reported by {origin} is not inside the {}-byte input on character boundaries ({})", i.start, i.end, self.text.len(), i.what),
+            );
+        }
+    }
+    fn check_span(&mut self, origin: &str, counter: &str, sp: &Span) {
+        if let Some(arc) = &self.input_arc {
+            if !std::sync::Arc::ptr_eq(arc, &sp.src().text) {
+                self.res.count("spans_of_foreign_source");
+            }
+        }
+        self.check_offsets(origin, counter, sp.start(), sp.end());
+    }
+    fn check_pos(&mut self, origin: &str, pos: usize) {
+        self.check_offsets(origin, "diagnostic_spans_checked", pos, pos);
+    }
+}
+
+/// For every `'` of `text`, replays what `lex_char` does when a char literal holds more than one
+/// character (first and second character with escapes decoded, the rest raw up to the next `'`)
+/// including its span end `position(second char) + byte length of the decoded string`. Quoted
+/// texts for which that end is outside the input or not on a character boundary are replaced by
+/// `'xx'`. None if there is no such quoted text.
+fn neutralise_overshooting_char_literals(text: &str) -> Option<String> {
+    fn escape(it: &mut std::iter::Peekable<std::str::CharIndices>) -> Option<char> {
+        let (_, c) = it.next()?;
+        Some(match c {
+            '"' => '"',
+            '\'' => '\'',
+            'n' => '\n',
+            'r' => '\r',
+            't' => '\t',
+            '\\' => '\\',
+            '0' => '\0',
+            'x' => {
+                let (h, l) = (it.next()?.1.to_digit(16)?, it.next()?.1.to_digit(16)?);
+                char::from_u32((h << 4) | l)?
+            }
+            'u' => {
+                if it.next()?.1 != '{' {
+                    return None;
+                }
+                let mut v: u64 = 0;
+                loop {
+                    let (_, d) = it.next()?;
+                    if d == '}' {
+                        break;
+                    }
+                    v = v.checked_mul(16)?.checked_add(d.to_digit(16)? as u64)?;
+                }
+                char::from_u32(u32::try_from(v).ok()?)?
+            }
+            _ => return None,
+        })
+    }
+    let mut bad: Vec<(usize, usize)> = vec![];
+    for (i, q) in text.char_indices() {
+        if q != '\'' {
+            continue;
+        }
+        let simulate = || -> Option<(usize, usize)> {
+            let mut it = text[i + 1..].char_indices().peekable();
+            let (_, c1) = it.next()?;
+            let first = if c1 == '\\' { escape(&mut it)? } else { c1 };
+            let (second_rel, c2) = it.next()?;
+            if c2 == '\'' {
+                return None;
+            }
+            let second = if c2 == '\\' { escape(&mut it)? } else { c2 };
+            let mut len = first.len_utf8() + second.len_utf8();
+            let close_rel = loop {
+                let (rel, c) = it.next()?;
+                if c == '\'' {
+                    break rel;
+                }
+                len += c.len_utf8();
+            };
+            let end = i + 1 + second_rel + len;
+            if end > text.len() || !text.is_char_boundary(end) {
+                Some((i, i + 1 + close_rel + 1))
+            } else {
+                None
+            }
+        };
+        if let Some(r) = simulate() {
+            if bad.last().map(|b| b.1 <= r.0).unwrap_or(true) {
+                bad.push(r);
+            }
+        }
+    }
+    if bad.is_empty() {
+        return None;
+    }
+    let mut out = String::new();
+    let mut at = 0;
+    for (s, e) in bad {
+        out.push_str(&text[at..s]);
+        out.push_str("'xx'");
+        at = e;
+    }
+    out.push_str(&text[at..]);
+    Some(out)
+}
+
+impl Checker {
+    fn new() -> Checker {
+        let source_engine = SourceEngine::default();
+        let source_id = source_engine.get_source_id(&PathBuf::from("/verif/work/C16/input.sw"));
+        Checker { source_engine, source_id }
+    }
+
+    /// All diagnostics of a handler: every span they carry must be inside the input.
+    fn check_handler(&self, stage: &str, handler: Handler, ev: &mut Eval) -> (usize, usize) {
+        let (errors, warnings, infos) = handler.consume();
+        let (ne, nw) = (errors.len(), warnings.len() + infos.len());
+        for e in &errors {
+            // label of the error kind (Display may touch spans: under catch)
+            let label = catch(AssertUnwindSafe(|| kind_label(&e.to_string()))).unwrap_or_else(|_| "unprintable".into());
+            let origin = format!("{stage}-error[{label}]");
+            match catch(AssertUnwindSafe(|| e.span())) {
+                Ok(sp) => ev.check_span(&origin, "diagnostic_spans_checked", &sp),
+                Err((loc, msg)) => ev.violation(panic_signature(&loc, &msg), format!("CompileError::span() panicked: {msg} at {loc}")),
+            }
+            match e {
+                CompileError::Lex { error } => {
+                    ev.res.count("lex_errors_seen");
+                    use LexErrorKind::*;
+                    let o = format!("{origin}.position");
+                    match &error.kind {
+                        UnclosedMultilineComment { unclosed_indices } => {
+                            for &p in unclosed_indices {
+                                ev.check_pos(&o, p);
+                            }
+                        }
+                        UnexpectedCloseDelimiter { position, .. }
+                        | UnclosedDelimiter { open_position: position, .. }
+                        | UnclosedStringLiteral { position }
+                        | UnclosedCharLiteral { position }
+                        | ExpectedCloseQuote { position }
+                        | IncompleteHexIntLiteral { position }
+                        | IncompleteBinaryIntLiteral { position }
+                        | IncompleteOctalIntLiteral { position }
+                        | InvalidCharacter { position, .. }
+                        | UnicodeEscapeMissingBrace { position }
+                        | InvalidUnicodeEscapeDigit { position }
+                        | UnicodeEscapeOutOfRange { position }
+                        | UnicodeTextDirInLiteral { position, .. }
+                        | InvalidEscapeCode { position } => ev.check_pos(&o, *position),
+                        MismatchedDelimiters { open_position, close_position, .. } => {
+                            ev.check_pos(&o, *open_position);
+                            ev.check_pos(&o, *close_position);
+                        }
+                        InvalidIntSuffix { suffix } => ev.check_span(&o, "diagnostic_spans_checked", &suffix.span()),
+                        UnicodeEscapeInvalidCharValue { span } => ev.check_span(&o, "diagnostic_spans_checked", span),
+                        InvalidHexEscape => {}
+                    }
+                }
+                CompileError::Parse { error } => {
+                    ev.res.count("parse_errors_seen");
+                    let o = format!("{origin}.nested");
+                    match &error.kind {
+                        ParseErrorKind::UnassignableExpression { erroneous_expression_span, .. } => ev.check_span(&o, "diagnostic_spans_checked", erroneous_expression_span),
+                        ParseErrorKind::MissingColonInEnumTypeField { variant_name, tuple_contents } => {
+                            ev.check_span(&o, "diagnostic_spans_checked", &variant_name.span());
+                            if let Some(sp) = tuple_contents {
+                                ev.check_span(&o, "diagnostic_spans_checked", sp);
+                            }
+                        }
+                        ParseErrorKind::UnnecessaryVisibilityQualifier { visibility } => ev.check_span(&o, "diagnostic_spans_checked", &visibility.span()),
+                        _ => {}
+                    }
+                }
+                _ => ev.res.count("other_errors_seen"),
+            }
+            // the rendered form: issue + hints
+            match catch(AssertUnwindSafe(|| e.to_diagnostic(&self.source_engine))) {
+                Ok(d) => {
+                    let o = format!("{origin}.diagnostic-label");
+                    ev.check_span(&o, "diagnostic_spans_checked", d.issue.span());
+                    for h in &d.hints {
+                        ev.check_span(&o, "diagnostic_spans_checked", h.span());
+                    }
+                }
+                Err((loc, msg)) => ev.violation(panic_signature(&loc, &msg), format!("to_diagnostic of a {stage} error panicked: {msg} at {loc}")),
+            }
+        }
+        for w in &warnings {
+            ev.check_span(&format!("{stage}-warning"), "diagnostic_spans_checked", &w.span);
+            match catch(AssertUnwindSafe(|| w.to_diagnostic(&self.source_engine))) {
+                Ok(d) => {
+                    ev.check_span(&format!("{stage}-warning.diagnostic-label"), "diagnostic_spans_checked", d.issue.span());
+                    for h in &d.hints {
+                        ev.check_span(&format!("{stage}-warning.diagnostic-label"), "diagnostic_spans_checked", h.span());
+                    }
+                }
+                Err((loc, msg)) => ev.violation(panic_signature(&loc, &msg), format!("to_diagnostic of a {stage} warning panicked: {msg} at {loc}")),
+            }
+        }
+        for i in &infos {
+            ev.check_span(&format!("{stage}-info"), "diagnostic_spans_checked", &i.span);
+        }
+        (ne, nw)
+    }
+
+    /// Walk the lexed stream: check every span; returns the token fingerprint (comments skipped)
+    /// if every span was fine.
+    fn walk_tokens(&self, stream: &CommentedTokenStream, ev: &mut Eval) -> Option<u64> {
+        use sha2::{Digest, Sha256};
+        let before = ev.failed;
+        ev.failed = false;
+        let mut h = Sha256::new();
+        let mut ntok = 0u64;
+        // explicit stack: (slice, next index, closing char)
+        ev.check_span("token-stream.full_span", "token_spans_checked", &stream.full_span);
+        let mut stack: Vec<(&[CommentedTokenTree], usize, u8)> = vec![(stream.token_trees(), 0, 0)];
+        let mut maxdepth = 0;
+        while let Some((trees, i, close)) = stack.last_mut() {
+            if *i >= trees.len() {
+                if *close != 0 {
+                    h.update([*close, 0]);
+                }
+                stack.pop();
+                continue;
+            }
+            let t = &trees[*i];
+            *i += 1;
+            match t {
+                CommentedTokenTree::Comment(c) => {
+                    ev.check_span("token:comment", "token_spans_checked", &c.span);
+                }
+                CommentedTokenTree::Tree(tt) => {
+                    ntok += 1;
+                    match tt {
+                        CommentedTree::Punct(p) => {
+                            ev.check_span("token:punct", "token_spans_checked", &p.span);
+                            h.update([b'p', p.kind.as_char() as u8, matches!(p.spacing, sway_ast::token::Spacing::Joint) as u8, 0]);
+                        }
+                        CommentedTree::Ident(id) => {
+                            let sp = id.span();
+                            ev.check_span("token:ident", "token_spans_checked", &sp);
+                            h.update(b"i");
+                            h.update(id.as_str().as_bytes());
+                            h.update([0]);
+                        }
+                        CommentedTree::Literal(l) => {
+                            let sp = l.span();
+                            ev.check_span("token:literal", "token_spans_checked", &sp);
+                            if let sway_ast::Literal::Int(li) = l {
+                                if let Some((_, tsp)) = &li.ty_opt {
+                                    ev.check_span("token:literal.suffix", "token_spans_checked", tsp);
+                                }
+                            }
+                            if !ev.failed {
+                                h.update(b"l");
+                                h.update(sp.as_str().as_bytes());
+                                h.update([0]);
+                            }
+                        }
+                        CommentedTree::DocComment(d) => {
+                            ev.check_span("token:doc-comment", "token_spans_checked", &d.span);
+                            ev.check_span("token:doc-comment.content", "token_spans_checked", &d.content_span);
+                            if !ev.failed {
+                                h.update(b"d");
+                                h.update(d.span.as_str().as_bytes());
+                                h.update([0]);
+                            }
+                        }
+                        CommentedTree::Group(g) => {
+                            ev.check_span("token:group", "token_spans_checked", &g.span);
+                            let (o, c) = match g.delimiter {
+                                sway_types::ast::Delimiter::Parenthesis => (b'(', b')'),
+                                sway_types::ast::Delimiter::Brace => (b'{', b'}'),
+                                sway_types::ast::Delimiter::Bracket => (b'[', b']'),
+                            };
+                            h.update([o, 0]);
+                            ev.check_span("token-stream.full_span", "token_spans_checked", &g.token_stream.full_span);
+                            stack.push((g.token_stream.token_trees(), 0, c));
+                            maxdepth = maxdepth.max(stack.len());
+                        }
+                    }
+                }
+            }
+        }
+        ev.res.max("max_group_depth_lexed", maxdepth as u64);
+        ev.res.add("tokens_lexed", ntok);
+        let ok = !ev.failed;
+        ev.failed |= before;
+        if ok {
+            let d = h.finalize();
+            Some(u64::from_le_bytes(d[..8].try_into().unwrap()) ^ ntok)
+        } else {
+            None
+        }
+    }
+
+    /// Fingerprint of a seed file (None if it does not lex or panics: no reporting here, the
+    /// identity mutant reports).
+    fn seed_fingerprint(&self, text: &str) -> Option<u64> {
+        let mut scratch = ShardResult::default();
+        let h = Handler::default();
+        let r = catch(AssertUnwindSafe(|| sway_parse::lex_commented(&h, Source::new(text), 0, text.len(), &None)));
+        match r {
+            Ok(Ok(stream)) => {
+                let mut ev = Eval { text, res: &mut scratch, replay: Value::Null, input_arc: None, failed: false };
+                let fp = catch(AssertUnwindSafe(|| self.walk_tokens(&stream, &mut ev))).ok().flatten();
+                fp
+            }
+            _ => None,
+        }
+    }
+
+    /// Signature of a panic inside lex / parse_file. All lexer spans are built by one helper
+    /// (`token.rs: fn span`, `Span::new(..).unwrap()`), so its panic location alone would lump every
+    /// bad span computation of the lexer together. The three mechanisms known on the unchanged tree
+    /// get their own signature, and only when they are confirmed on the input at hand by a probe
+    /// that neutralises exactly the suspected sites and must then observe (i) no panic and (ii) the
+    /// lexer error whose span computation is at fault:
+    ///  A `lex_block_comment`: the span of an unclosed block comment ends at `len - 1`, inside the
+    ///    last character when that is multi-byte. Probe: last character replaced by `x`; expects
+    ///    UnclosedMultilineComment.
+    ///  B `parse_escape_code`: `\u` followed by a non-`{` character c: span = position of `u` plus
+    ///    len(c), which ends inside c when c is multi-byte. Probe: every non-ASCII character that
+    ///    follows `\u` replaced by `x`; expects UnicodeEscapeMissingBrace.
+    ///  C `lex_char` recovery of 'ab': the span end is position(second char) + byte length of the
+    ///    *parsed* string, which differs from the length of the source text when the literal holds
+    ///    multi-byte characters or escapes. Probe: `neutralise_overshooting_char_literals` replays
+    ///    that computation for every `'` of the input and replaces the quoted texts for which it
+    ///    leaves the input or a character boundary by `'xx'`; expects ExpectedCloseQuote.
+    /// Several mechanisms may be needed at once; the smallest confirming subset names the signature.
+    /// Anything else keeps the generic call-site signature (and is therefore reported).
+    fn classify_panic(&self, text: &str, loc: &str, msg: &str) -> String {
+        let generic = panic_signature(loc, msg);
+        if !(loc.contains("sway-parse/src/token.rs") && msg.contains("Option::unwrap()")) {
+            return generic;
+        }
+        static RE_B: std::sync::OnceLock<regex::Regex> = std::sync::OnceLock::new();
+        let re_b = RE_B.get_or_init(|| regex::Regex::new(r"\\u[^\x00-\x7f]").unwrap());
+        let apply = |mask: u32| -> Option<String> {
+            let mut t = text.to_string();
+            // C first (it works on `'` + following char), then B, then A (last character)
+            if mask & 4 != 0 {
+                t = neutralise_overshooting_char_literals(&t)?;
+            }
+            if mask & 2 != 0 {
+                if !re_b.is_match(&t) {
+                    return None;
+                }
+                t = re_b.replace_all(&t, "\\ux").into_owned();
+            }
+            if mask & 1 != 0 {
+                let last = t.chars().next_back()?;
+                if last.len_utf8() < 2 {
+                    return None;
+                }
+                t.truncate(t.len() - last.len_utf8());
+                t.push('x');
+            }
+            Some(t)
+        };
+        // subsets ordered by size
+        for mask in [1u32, 2, 4, 3, 5, 6, 7] {
+            let Some(probe) = apply(mask) else { continue };
+            let h = Handler::default();
+            let r = catch(AssertUnwindSafe(|| {
+                let _ = sway_parse::lex_commented(&h, Source::new(&probe), 0, probe.len(), &None);
+            }));
+            if r.is_err() {
+                continue;
+            }
+            let (errors, _, _) = h.consume();
+            let has = |f: &dyn Fn(&LexErrorKind) -> bool| errors.iter().any(|e| matches!(e, CompileError::Lex { error } if f(&error.kind)));
+            let a_ok = mask & 1 == 0 || has(&|k| matches!(k, LexErrorKind::UnclosedMultilineComment { .. }));
+            let b_ok = mask & 2 == 0 || has(&|k| matches!(k, LexErrorKind::UnicodeEscapeMissingBrace { .. }));
+            let c_ok = mask & 4 == 0 || has(&|k| matches!(k, LexErrorKind::ExpectedCloseQuote { .. }));
+            if a_ok && b_ok && c_ok {
+                let mut names = vec![];
+                if mask & 1 != 0 {
+                    names.push("unclosed-block-comment-before-multibyte-last-char");
+                }
+                if mask & 2 != 0 {
+                    names.push("unicode-escape-missing-brace-before-multibyte-char");
+                }
+                if mask & 4 != 0 {
+                    names.push("multi-char-literal-span-from-decoded-length");
+                }
+                return format!("lexer-span-byte-arithmetic[{}]:panic@sway-parse/src/token.rs", names.join("+"));
+            }
+        }
+        generic
+    }
+
+    /// Run the real lexer and parser on `text`. Returns the token fingerprint if it lexed.
+    fn check_text(&self, text: &str, variant: u64, replay: Value, res: &mut ShardResult) -> Option<u64> {
+        res.evaluations += 1;
+        if !text.is_ascii() {
+            res.count("inputs_non_ascii");
+        }
+        if text.chars().any(|c| c.len_utf8() == 4) {
+            res.count("inputs_with_4byte_chars");
+        }
+        res.max("max_input_bytes", text.len() as u64);
+        let source_id = if variant & 1 == 0 { None } else { Some(self.source_id) };
+        let experimental = if variant & 2 == 0 {
+            ExperimentalFeatures::default()
+        } else {
+            let mut e = ExperimentalFeatures::default();
+            for f in ["new_encoding", "references", "new_hashing", "str_array_no_padding", "dynamic_storage"] {
+                let _ = e.set_enabled_by_name(f, true);
+            }
+            e
+        };
+        let mut ev = Eval { text, res, replay, input_arc: None, failed: false };
+
+        // ---- lexer
+        let handler = Handler::default();
+        let lexed = catch(AssertUnwindSafe(|| {
+            let src = Source::new(text);
+            let arc = src.text.clone();
+            (sway_parse::lex_commented(&handler, src, 0, text.len(), &source_id), arc)
+        }));
+        let mut fp = None;
+        match lexed {
+            Err((loc, msg)) => {
+                ev.res.count("panics_lex");
+                let sig = self.classify_panic(text, &loc, &msg);
+                ev.violation(sig, format!("lexer panicked: {msg} at {loc}"));
+            }
+            Ok((r, arc)) => {
+                ev.input_arc = Some(arc);
+                let (nerr, _) = self.check_handler("lex", handler, &mut ev);
+                match r {
+                    Ok(stream) => {
+                        ev.res.count("lexed_ok");
+                        if nerr > 0 {
+                            ev.res.count("lexed_ok_with_errors");
+                        }
+                        match catch(AssertUnwindSafe(|| self.walk_tokens(&stream, &mut ev))) {
+                            Ok(f) => fp = f,
+                            Err((loc, msg)) => ev.violation(panic_signature(&loc, &msg), format!("walking the lexed token stream panicked (span accessor): {msg} at {loc}")),
+                        }
+                    }
+                    Err(_) => {
+                        ev.res.count("lex_rejected");
+                        if nerr == 0 {
+                            ev.violation("no-tree-no-diagnostic:lex".into(), "lex returned Err(ErrorEmitted) but the handler holds no error".into());
+                        }
+                    }
+                }
+            }
+        }
+
+        // ---- parser (lexes again internally, exactly as every caller does)
+        let handler = Handler::default();
+        let parsed = catch(AssertUnwindSafe(|| {
+            let src = Source::new(text);
+            let arc = src.text.clone();
+            (sway_parse::parse_file(&handler, src, source_id, experimental), arc)
+        }));
+        match parsed {
+            Err((loc, msg)) => {
+                ev.res.count("panics_parse");
+                let sig = self.classify_panic(text, &loc, &msg);
+                ev.violation(sig, format!("parse_file panicked: {msg} at {loc}"));
+            }
+            Ok((r, arc)) => {
+                ev.input_arc = Some(arc);
+                let (nerr, nwarn) = self.check_handler("parse", handler, &mut ev);
+                ev.res.add("diagnostics_errors", nerr as u64);
+                ev.res.add("diagnostics_warnings", nwarn as u64);
+                if nerr + nwarn > 0 {
+                    ev.res.count("inputs_with_diagnostics");
+                }
+                match r {
+                    Ok(module) => {
+                        ev.res.count("parsed_ok");
+                        if nerr > 0 {
+                            ev.res.count("parsed_ok_with_recovered_errors");
+                        }
+                        let walked = catch(AssertUnwindSafe(|| {
+                            let mut spans: Vec<(&'static str, Span)> = vec![];
+                            spans.push(("module-kind", module.value.kind.span()));
+                            spans.push(("module-semicolon", module.value.semicolon_token.span()));
+                            for a in &module.attributes {
+                                spans.push(("module-attribute", a.span()));
+                            }
+                            let mut nerr_items = 0;
+                            for item in &module.value.items {
+                                for a in &item.attributes {
+                                    spans.push(("item-attribute", a.span()));
+                                }
+                                match &item.value {
+                                    ItemKind::Error(sps, _) => {
+                                        nerr_items += 1;
+                                        for sp in sps.iter() {
+                                            spans.push(("item-error-span", sp.clone()));
+                                        }
+                                    }
+                                    other => spans.push(("item", other.span())),
+                                }
+                            }
+                            (spans, module.value.items.len(), nerr_items)
+                        }));
+                        match walked {
+                            Ok((spans, nitems, nerr_items)) => {
+                                ev.res.add("items_parsed", nitems as u64);
+                                ev.res.add("error_items_recovered", nerr_items as u64);
+                                for (o, sp) in spans {
+                                    ev.check_span(&format!("tree:{o}"), "item_spans_checked", &sp);
+                                }
+                            }
+                            Err((loc, msg)) => ev.violation(panic_signature(&loc, &msg), format!("computing the spans of the returned module's items panicked: {msg} at {loc}")),
+                        }
+                    }
+                    Err(_) => {
+                        ev.res.count("parse_rejected");
+                        if nerr == 0 {
+                            ev.violation("no-tree-no-diagnostic:parse".into(), "parse_file returned Err(ErrorEmitted) but the handler holds no error".into());
+                        }
+                    }
+                }
+            }
+        }
+        fp
+    }
+}
+
+// ------------------------------------------------------------------------------------------
+// Worker process
+
+fn case_json(c: &Case, corpus: &Corpus, shard: u64, index: u64, variant: u64) -> Value {
+    json!({
+        "text": c.text,
+        "kind": c.kind,
+        "ops": c.ops,
+        "seed_file": c.seed_file.map(|i| corpus.files[i].display().to_string()),
+        "shard": shard,
+        "index": index,
+        "variant": variant,
+    })
+}
+
+fn run_case(chk: &Checker, corpus: &mut Corpus, c: &Case, shard: u64, index: u64, res: &mut ShardResult) {
+    let variant = hash64(&index.to_le_bytes()) & 3;
+    res.count(&format!("kind_{}", c.kind));
+    for op in &c.ops {
+        res.count(&format!("op_{op}"));
+    }
+    let replay = case_json(c, corpus, shard, index, variant);
+    let fp = chk.check_text(&c.text, variant, replay, res);
+    // non-triviality
+    let nontrivial = match c.seed_file {
+        None => rough_tokens(&c.text).iter().filter(|t| t.k != K::Ws).count() >= 2,
+        Some(fi) => {
+            if !corpus.fp.contains_key(&fi) {
+                let t = corpus.text(fi).unwrap_or_default();
+                let f = chk.seed_fingerprint(&t);
+                corpus.fp.insert(fi, f);
+                res.count("seed_files_used");
+                if f.is_none() {
+                    res.count("seed_files_not_lexing");
+                }
+            }
+            match (fp, corpus.fp[&fi]) {
+                (Some(a), Some(b)) => {
+                    res.count("nontriviality_by_token_stream");
+                    a != b
+                }
+                _ => {
+                    res.count("nontriviality_by_bytes");
+                    Some(&c.text) != corpus.text(fi).as_ref()
+                }
+            }
+        }
+    };
+    if nontrivial {
+        res.note_nontrivial(hash64(c.text.as_bytes()));
+    } else {
+        res.count("trivial_mutants");
+    }
+    if res.samples.len() < 2 && nontrivial && c.text.len() < 400 {
+        res.sample(json!({"kind": c.kind, "ops": c.ops, "text": c.text}));
+    }
+}
+
+fn on_big_stack<T: Send + 'static>(f: impl FnOnce() -> T + Send + 'static) -> Result<T, String> {
+    std::thread::Builder::new()
+        .stack_size(STACK)
+        .spawn(f)
+        .map_err(|e| format!("cannot spawn big-stack thread: {e}"))?
+        .join()
+        .map_err(|_| "harness thread panicked outside of the monitored calls".to_string())
+}
+
+/// c16-worker <seed> <shard> <start_index> <budget_ms> <out> <journal>
+fn worker_main(a: &[String]) -> i32 {
+    let seed: u64 = a[0].parse().unwrap();
+    let shard: u64 = a[1].parse().unwrap();
+    let start_index: u64 = a[2].parse().unwrap();
+    let budget = Duration::from_millis(a[3].parse().unwrap());
+    let out = PathBuf::from(&a[4]);
+    let journal_path = PathBuf::from(&a[5]);
+    let out2 = out.clone();
+    let r = on_big_stack(move || {
+        use std::os::unix::fs::FileExt;
+        let start = Instant::now();
+        let journal = std::fs::OpenOptions::new().create(true).write(true).truncate(false).open(&journal_path).expect("journal");
+        let mut corpus = Corpus::load();
+        let chk = Checker::new();
+        let mut res = ShardResult::default();
+        res.max("max_corpus_files", corpus.files.len() as u64);
+        let mut index = start_index;
+        let mut last_partial = Instant::now();
+        let partial = out2.with_extension("partial");
+        while start.elapsed() < budget {
+            let _ = journal.write_at(&index.to_le_bytes(), 0);
+            let c = gen_case(seed, shard, index, &mut corpus);
+            match c.skipped {
+                Some(why) => res.count(&format!("skipped_{why}")),
+                None => run_case(&chk, &mut corpus, &c, shard, index, &mut res),
+            }
+            index += 1;
+            if last_partial.elapsed() > Duration::from_secs(5) {
+                let _ = std::fs::write(&partial, serde_json::to_string(&res).unwrap());
+                last_partial = Instant::now();
+            }
+        }
+        let _ = journal.write_at(&u64::MAX.to_le_bytes(), 0);
+        res
+    });
+    match r {
+        Ok(res) => {
+            std::fs::write(&out, serde_json::to_string(&res).unwrap()).expect("write worker result");
+            0
+        }
+        Err(e) => {
+            eprintln!("c16-worker: {e}");
+            3
+        }
+    }
+}
+
+/// c16-one <input file> <out> [variant]: evaluate one text in a fresh process
+fn one_main(a: &[String]) -> i32 {
+    let text = match std::fs::read_to_string(&a[0]) {
+        Ok(t) => t,
+        Err(e) => {
+            eprintln!("c16-one: {e}");
+            return 3;
+        }
+    };
+    let out = PathBuf::from(&a[1]);
+    let variant: u64 = a.get(2).and_then(|s| s.parse().ok()).unwrap_or(0);
+    let r = on_big_stack(move || {
+        let chk = Checker::new();
+        let mut res = ShardResult::default();
+        let replay = json!({"text": text, "variant": variant});
+        chk.check_text(&text, variant, replay, &mut res);
+        res
+    });
+    match r {
+        Ok(res) => {
+            std::fs::write(&out, serde_json::to_string(&res).unwrap()).expect("write result");
+            0
+        }
+        Err(e) => {
+            eprintln!("c16-one: {e}");
+            3
+        }
+    }
+}
+
+fn subcommand(args: &[String]) -> Option<i32> {
+    match args.first().map(|s| s.as_str()) {
+        Some("c16-worker") if args.len() >= 7 => Some(worker_main(&args[1..])),
+        Some("c16-one") if args.len() >= 3 => Some(one_main(&args[1..])),
+        _ => None,
+    }
+}
+
+// ------------------------------------------------------------------------------------------
+// Supervisor (the shard)
+
+#[derive(Debug)]
+enum ChildEnd {
+    Ok(ShardResult),
+    Signal(i32),
+    Code(i32),
+    Hung,
+}
+
+fn read_result(p: &Path) -> Option<ShardResult> {
+    std::fs::read_to_string(p).ok().and_then(|s| serde_json::from_str(&s).ok())
+}
+
+/// Run `text` in a fresh process. (result, how it ended)
+fn run_one_process(dir: &Path, tag: &str, text: &str, variant: u64) -> ChildEnd {
+    use std::os::unix::process::ExitStatusExt;
+    let input = dir.join(format!("{tag}.input.sw"));
+    let out = dir.join(format!("{tag}.result.json"));
+    let _ = std::fs::remove_file(&out);
+    if std::fs::write(&input, text).is_err() {
+        return ChildEnd::Code(-1);
+    }
+    let exe = std::env::current_exe().expect("current_exe");
+    let log = std::fs::File::create(dir.join(format!("{tag}.log"))).ok();
+    let mut cmd = std::process::Command::new(exe);
+    cmd.arg("c16-one").arg(&input).arg(&out).arg(variant.to_string()).stdin(std::process::Stdio::null());
+    if let Some(l) = log {
+        if let Ok(l2) = l.try_clone() {
+            cmd.stdout(l).stderr(l2);
+        }
+    }
+    let Ok(mut child) = cmd.spawn() else { return ChildEnd::Code(-1) };
+    let start = Instant::now();
+    loop {
+        match child.try_wait() {
+            Ok(Some(st)) => {
+                if let Some(sig) = st.signal() {
+                    return ChildEnd::Signal(sig);
+                }
+                if st.success() {
+                    if let Some(r) = read_result(&out) {
+                        return ChildEnd::Ok(r);
+                    }
+                }
+                return ChildEnd::Code(st.code().unwrap_or(-1));
+            }
+            Ok(None) => {
+                if start.elapsed() > Duration::from_secs(HANG_SECS) {
+                    let _ = child.kill();
+                    let _ = child.wait();
+                    return ChildEnd::Hung;
+                }
+                std::thread::sleep(Duration::from_millis(10));
+            }
+            Err(_) => return ChildEnd::Code(-1),
+        }
+    }
+}
+
+fn log_tail(p: &Path) -> String {
+    let s = std::fs::read_to_string(p).unwrap_or_default();
+    let t: String = s.chars().rev().take(300).collect::<String>().chars().rev().collect();
+    t.replace('\n', " | ")
+}
+
+fn shard(ctx: &ShardCtx) -> ShardResult {
+    use std::os::unix::process::ExitStatusExt;
+    let mut total = ShardResult::default();
+    let dir = ctx.work();
+    let exe = std::env::current_exe().expect("current_exe");
+    let journal = dir.join("journal");
+    let mut next: u64 = 0;
+    let mut respawns = 0u32;
+    let mut corpus: Option<Corpus> = None;
+    while ctx.time_left() {
+        if respawns > 50 {
+            total.inconclusive("worker was restarted more than 50 times; giving up on this shard");
+            break;
+        }
+        let left = ctx.budget.saturating_sub(ctx.start.elapsed());
+        let out = dir.join(format!("worker{respawns}.result.json"));
+        let logp = dir.join(format!("worker{respawns}.log"));
+        let _ = std::fs::write(&journal, next.to_le_bytes());
+        let mut cmd = std::process::Command::new(&exe);
+        cmd.arg("c16-worker").arg(ctx.seed.to_string()).arg(ctx.shard.to_string()).arg(next.to_string()).arg(left.as_millis().to_string()).arg(&out).arg(&journal).stdin(std::process::Stdio::null());
+        if let Ok(l) = std::fs::File::create(&logp) {
+            if let Ok(l2) = l.try_clone() {
+                cmd.stdout(l).stderr(l2);
+            }
+        }
+        let mut child = match cmd.spawn() {
+            Ok(c) => c,
+            Err(e) => {
+                total.harness_fault = Some(format!("cannot spawn c16-worker: {e}"));
+                return total;
+            }
+        };
+        respawns += 1;
+        let read_journal = || -> u64 { std::fs::read(&journal).ok().and_then(|b| b.get(..8).map(|x| u64::from_le_bytes(x.try_into().unwrap()))).unwrap_or(u64::MAX) };
+        let mut last_idx = read_journal();
+        let mut last_change = Instant::now();
+        let end = loop {
+            match child.try_wait() {
+                Ok(Some(st)) => {
+                    if let Some(sig) = st.signal() {
+                        break ChildEnd::Signal(sig);
+                    }
+                    if st.success() {
+                        if let Some(r) = read_result(&out) {
+                            break ChildEnd::Ok(r);
+                        }
+                    }
+                    break ChildEnd::Code(st.code().unwrap_or(-1));
+                }
+                Ok(None) => {
+                    let idx = read_journal();
+                    if idx != last_idx {
+                        last_idx = idx;
+                        last_change = Instant::now();
+                    } else if last_change.elapsed() > Duration::from_secs(HANG_SECS) {
+                        let _ = child.kill();
+                        let _ = child.wait();
+                        break ChildEnd::Hung;
+                    }
+                    std::thread::sleep(Duration::from_millis(25));
+                }
+                Err(_) => break ChildEnd::Code(-1),
+            }
+        };
+        match end {
+            ChildEnd::Ok(r) => {
+                total.merge(r);
+                break; // the worker used up the budget
+            }
+            ChildEnd::Code(code) => {
+                // the harness's own code failed (exit 3) or the worker could not start
+                total.harness_fault = Some(format!("c16-worker exited with code {code}: {}", log_tail(&logp)));
+                if let Some(r) = read_result(&out.with_extension("partial")) {
+                    total.merge(r);
+                }
+                return total;
+            }
+            ChildEnd::Hung | ChildEnd::Signal(_) => {
+                if let Some(r) = read_result(&out.with_extension("partial")) {
+                    total.merge(r);
+                }
+                let idx = read_journal();
+                if idx == u64::MAX {
+                    total.inconclusive(format!("worker ended abnormally ({end:?}) outside of a case"));
+                    break;
+                }
+                let corpus = corpus.get_or_insert_with(Corpus::load);
+                let c = gen_case(ctx.seed, ctx.shard, idx, corpus);
+                let variant = hash64(&idx.to_le_bytes()) & 3;
+                let replay = case_json(&c, corpus, ctx.shard, idx, variant);
+                next = idx + 1;
+                if let ChildEnd::Hung = end {
+                    total.inconclusive(format!("no progress for {HANG_SECS} s on case index {idx} of shard {} (seed {}); worker killed, case skipped", ctx.shard, ctx.seed));
+                    total.count("cases_hung");
+                    let _ = std::fs::write(dir.join(format!("hung_case_{idx}.json")), replay.to_string());
+                    continue;
+                }
+                let ChildEnd::Signal(sig) = end else { unreachable!() };
+                total.count("worker_deaths_by_signal");
+                // does the same input kill a fresh process again?
+                match run_one_process(&dir, &format!("confirm{idx}"), &c.text, variant) {
+                    ChildEnd::Signal(sig2) => {
+                        total.evaluations += 1;
+                        let tail = log_tail(&dir.join(format!("confirm{idx}.log")));
+                        total.violation(
+                            format!("process-death:signal={sig2}:input={}", &sha_hex(c.text.as_bytes())[..16]),
+                            format!("parsing this input kills the process (signal {sig} in the worker, signal {sig2} in a fresh process; not a panic): {tail}"),
+                            replay,
+                        );
+                    }
+                    ChildEnd::Ok(r) => {
+                        // not reproducible in isolation: keep whatever the fresh run found
+                        total.merge(r);
+                        total.inconclusive(format!("worker died on signal {sig} at case index {idx} but the same input is handled by a fresh process"));
+                    }
+                    other => total.inconclusive(format!("worker died on signal {sig} at case index {idx}; confirmation run ended with {other:?}")),
+                }
+            }
+        }
+    }
+    total.max("max_worker_processes_per_shard", respawns as u64);
+    total
+}
+
+fn replay(case: &Value) -> ShardResult {
+    let mut res = ShardResult::default();
+    let Some(text) = case["text"].as_str() else {
+        res.harness_fault = Some("replay case has no text".into());
+        return res;
+    };
+    let variant = case["variant"].as_u64().unwrap_or(0);
+    let dir = work_dir("C16").join("replay");
+    std::fs::create_dir_all(&dir).ok();
+    match run_one_process(&dir, "replay", text, variant) {
+        ChildEnd::Ok(mut r) => {
+            // re-attach the full case to whatever was found
+            for v in &mut r.violations {
+                v.replay = case.clone();
+            }
+            res.merge(r);
+        }
+        ChildEnd::Signal(sig) => {
+            res.evaluations += 1;
+            res.violation(
+                format!("process-death:signal={sig}:input={}", &sha_hex(text.as_bytes())[..16]),
+                format!("parsing this input kills the process (signal {sig}): {}", log_tail(&dir.join("replay.log"))),
+                case.clone(),
+            );
+        }
+        ChildEnd::Hung => res.inconclusive("replay did not finish within the watchdog"),
+        ChildEnd::Code(c) => res.harness_fault = Some(format!("c16-one exited with code {c}: {}", log_tail(&dir.join("replay.log")))),
+    }
+    res
+}
